@@ -117,14 +117,38 @@ Definition ends_with_assignment (i : nat) : bool :=
   existsb (Nat.eqb i) [T_assign_lit; T_assign_paren; T_assign_index; T_assign_measure; T_assign_call; T_assign_cast;
                        T_if_else_stmts; T_while_stmt; T_for_set; T_annotation; T_assign_unary; T_assign_not; T_cast_nested].
 Definition starts_with_operator (j : nat) : bool := Nat.eqb j T_expr_neg.
+(* C16: an empty statement `;` directly after a statement parsed by the top-level item routine
+   (declarations, definitions, control flow, ...) is reported as "expected statement, found `;`";
+   after an expression statement, at the start of a file and inside every block it is accepted
+   (pinned by the test from_string_block_trailing_semicolon) *)
+Definition first_kinds (t : list N) : N * N :=
+  match to_input (lexed_of (text t)) with
+  | (k, _) :: (la, _) :: _ => (k, la)
+  | [(k, _)] => (k, K_EOF)
+  | [] => (K_EOF, K_EOF)
+  end.
+(* the dispatch condition of items.rs:opt_item *)
+Definition item_first (k la : N) : bool :=
+  (is_classical_type k && negb (N.eqb la K_L_PAREN)) ||
+  existsb (N.eqb k)
+    [K_QUBIT_KW; K_CONST_KW; K_GATE_KW; K_BREAK_KW; K_CONTINUE_KW; K_END_KW; K_IF_KW; K_WHILE_KW;
+     K_FOR_KW; K_DEF_KW; K_DEFCAL_KW; K_CAL_KW; K_DEFCALGRAMMAR_KW; K_EXTERN_KW; K_RESET_KW;
+     K_BARRIER_KW; K_O_P_E_N_Q_A_S_M_KW; K_INCLUDE_KW; K_SWITCH_KW; K_LET_KW; K_DELAY_KW;
+     K_INPUT_KW; K_OUTPUT_KW].
+Definition is_item (i : nat) : bool := let '(k, la) := first_kinds (nth i templates []) in item_first k la.
+Definition is_empty_stmt (j : nat) : bool := Nat.eqb j T_empty.
+Definition k_empty_after_item (i j : nat) : bool := is_item i && is_empty_stmt j.
+(* the same class seen through the statement contexts: context 3 puts `int z;` (an item) in front *)
+Definition k_ctx_empty (c i : nat) : bool := Nat.eqb c 3 && is_empty_stmt i.
 Definition k_c16 (i j : nat) : bool :=
-  is_let i || is_let j || (ends_with_assignment i && starts_with_operator j).
+  is_let i || is_let j || (ends_with_assignment i && starts_with_operator j) || k_empty_after_item i j.
 
 (* C16: an anonymous block `{ ... }` that is the last statement of a block body is left as a bare
    BLOCK_EXPR (rust-analyzer's tail expression), not wrapped in EXPR_STMT *)
 Definition is_anon_block (j : nat) : bool :=
   existsb (Nat.eqb j) [T_anon_block; T_anon_block_empty; T_anon_block_nested].
-Definition k_c16_block (i j : nat) : bool := k_c16 i j || is_anon_block j.
+Definition k_c16_block (i j : nat) : bool :=
+  is_let i || is_let j || (ends_with_assignment i && starts_with_operator j) || is_anon_block j.
 
 Definition ids : list nat := seq 0 (List.length templates).
 Definition id_pairs : list (nat * nat) := flat_map (fun i => map (fun j => (i, j)) ids) ids.
